@@ -74,6 +74,7 @@ def run_case(rng, tier, case):
     p0 = Snap(r0.op)
     # ---------------- renaming
     ren, maps = rename_hostile(rng, spec)
+    p1 = None; has_struct = True
     case.key = env.spec_key([spec, ren]); case.sample = {'P': gen.abbreviate(spec), 'renaming': maps}; case.spec = {'P': spec, 'renamed': ren}
     if maps:
         r1 = flow.run_portfolio(ren)
@@ -112,6 +113,26 @@ def run_case(rng, tier, case):
                 case.check('rename.outputs_equal_up_to_relabelling', ok, bad=bad, renaming=maps)
             elif isinstance(r0.res, str) != isinstance(r1.res, str) and 'inaccurate' not in (r0.res, r1.res):
                 case.check('rename.value_equal', False, res=str(r0.res)[:20], res_renamed=str(r1.res)[:20], renaming=maps)
+    if maps and p1 is not None and not has_struct and not any('Scaled' in t for t in gen.asset_types(spec)) and rng.random() < 0.5:
+        # the renaming applied IN PLACE to the objects that were just used (node.name = ..., asset.name = ...), a new portfolio built from
+        # them: the problem of the freshly built renamed objects
+        try:
+            from eaopack.portfolio import Portfolio
+            with env.quiet(), attach.paused():
+                objs = list(r0.built.portfolio.assets)
+                seen_nodes = {}
+                for o_ in objs:
+                    for n_ in o_.nodes:
+                        seen_nodes[id(n_)] = n_
+                for n_ in seen_nodes.values():
+                    n_.name = maps['nodes'][n_.name]
+                for o_ in objs:
+                    o_.name = maps['assets'][o_.name]
+                op_ip = Portfolio(objs).setup_optim_problem(r0.built.prices, r0.built.timegrid)
+            d_ip = problem_diff(Snap(op_ip), p1, rtol=0., compare_mapping=True)
+            case.check('rename.in_place_on_used_objects_same_as_fresh', d_ip is None, renaming=maps, diff=d_ip)
+        except Exception as e:
+            case.check('rename.in_place_on_used_objects_same_as_fresh', False, renaming=maps, error='%s: %s' % (type(e).__name__, str(e)[:160]))
     # ---------------- permutation
     perm = [int(i) for i in rng.permutation(len(spec['assets']))]
     if perm == sorted(perm) and len(perm) > 1:
@@ -165,6 +186,22 @@ def run_case(rng, tier, case):
             case.check('permute.value_equal', abs(v0 - v2) <= tolv * (1 + abs(v0)), value=v0, value_permuted=v2, permutation=perm)
         elif isinstance(r0.res, str) != isinstance(r2.res, str) and 'inaccurate' not in (r0.res, r2.res):
             case.check('permute.value_equal', False, res=str(r0.res)[:20], res_permuted=str(r2.res)[:20], permutation=perm)
+    if not spec['grid']['freq'].endswith('d') and rng.random() < 0.3:
+        # the permuted portfolio through the SPLIT set-up (interval problems concatenated, variables of orders outside an interval kept but unmapped):
+        # same value; what is reported per asset still balances per node and adds up to the value (necessary for 'same dispatch and cash flows';
+        # the dispatch itself is not compared, an LP may have several optima)
+        from ..mon_output import mon_balance_output, mon_value_accounting
+        size = gen.pick(rng, ['d', '12h', '6h'])
+        rs0 = flow.run_portfolio(spec, split=size); rs2 = flow.run_portfolio(ps, split=size)
+        case.feature('split_permutation:' + size)
+        if rs0.ok and rs2.ok:
+            if rs0.solved and rs2.solved:
+                v0, v2 = float(rs0.res.value), float(rs2.res.value)
+                case.check('permute.split_value_equal', abs(v0 - v2) <= tolv * (1 + abs(v0)), value=v0, value_permuted=v2, permutation=perm, split=size)
+                mon_balance_output(case, rs2.built.portfolio, rs2.out, clause='permute.split_output_balanced')
+                mon_value_accounting(case, rs2.built.portfolio, rs2.res, rs2.out, flow.top_setups(rs2.rec), rs2.built.timegrid.T, clause='permute.split_value')
+        elif rs0.ok != rs2.ok:
+            case.check('permute.split_setup_still_works', False, permutation=perm, split=size, error=flow.describe_error(rs0 if not rs0.ok else rs2))
     multi = any(len(a.get('nodes') or []) > 1 for a in spec['assets'])
     waccs = {a.get('wacc', 0) for a in spec['assets']}
     case.nontrivial = len(spec['assets']) >= 3 and (multi or len(waccs) > 1)
